@@ -34,7 +34,9 @@ func unquoteBytes(s []byte) (t []byte, ok bool) { //nolint:gocyclo // It's ok.
 		r += size
 	}
 	if r == len(s) {
-		return s, true
+		// The capacity ends where the length does: appending to the result
+		// cannot write into the quoted text.
+		return s[:r:r], true
 	}
 
 	b := make([]byte, len(s)+2*utf8.UTFMax)
